@@ -80,6 +80,7 @@ pub open spec fn sp_lit_state(lc: nat, lp: nat, total_pos: nat, prev_byte: nat) 
 
 // ---- distances ----------------------------------------------------------------------------
 /// DecodeDistance(len) with len = match length - 2.  Returns rep0 (distance - 1).
+#[verifier::opaque]
 pub open spec fn sp_distance(rc: Rc, pos_slot: Seq<Seq<u16>>, pos_decoders: Seq<u16>, align: Seq<u16>, len: nat, upd: bool)
     -> Option<(nat, Rc, Seq<Seq<u16>>, Seq<u16>, Seq<u16>)>
 {
@@ -137,6 +138,7 @@ pub open spec fn lit_finish(res: Option<(nat, Rc, Seq<u16>)>, m: LzS, ls: int) -
     }
 }
 
+#[verifier::opaque]
 pub open spec fn sp_literal(rc: Rc, m: LzS, w: Win, upd: bool) -> Option<(u8, Rc, LzS)> {
     let ls = sp_lit_state(m.lc, m.lp, w.hist, win_prev(w));
     if ls >= m.lit.len() { None }
@@ -268,4 +270,76 @@ pub open spec fn sp_step_match(rc: Rc, m: LzS, w: Win, pos_state: nat, upd: bool
             }
         }
     }
+}
+
+// ---- component-wise model equality (avoids extensionality obligations in contracts) ------------
+pub open spec fn seqs_eq(a: Seq<Seq<u16>>, b: Seq<Seq<u16>>) -> bool {
+    a.len() == b.len() && forall|i: int| 0 <= i < a.len() ==> #[trigger] a[i] =~= b[i]
+}
+pub open spec fn lzs_eq(a: LzS, b: LzS) -> bool {
+    &&& a.lc == b.lc && a.lp == b.lp && a.pb == b.pb && a.state == b.state
+    &&& seqs_eq(a.lit, b.lit) && seqs_eq(a.pos_slot, b.pos_slot)
+    &&& a.align =~= b.align && a.pos_decoders =~= b.pos_decoders && a.is_match =~= b.is_match
+    &&& a.is_rep =~= b.is_rep && a.is_rep_g0 =~= b.is_rep_g0 && a.is_rep_g1 =~= b.is_rep_g1
+    &&& a.is_rep_g2 =~= b.is_rep_g2 && a.is_rep0_long =~= b.is_rep0_long
+    &&& lens_eq(a.len, b.len) && lens_eq(a.rep_len, b.rep_len)
+    &&& a.rep.len() == 4 && b.rep.len() == 4
+    &&& a.rep[0] == b.rep[0] && a.rep[1] == b.rep[1] && a.rep[2] == b.rep[2] && a.rep[3] == b.rep[3]
+}
+pub broadcast proof fn lemma_seqs_eq(a: Seq<Seq<u16>>, b: Seq<Seq<u16>>)
+    requires #[trigger] seqs_eq(a, b),
+    ensures a == b,
+{
+    assert(a =~= b);
+}
+pub broadcast proof fn lemma_lzs_eq(a: LzS, b: LzS)
+    requires #[trigger] lzs_eq(a, b),
+    ensures a == b,
+{
+    assert(a.lit =~= b.lit);
+    assert(a.pos_slot =~= b.pos_slot);
+    assert(a.rep =~= b.rep);
+    lemma_lens_eq(a.len, b.len);
+    lemma_lens_eq(a.rep_len, b.rep_len);
+}
+
+/// posState = TotalPos & ((1 << pb) - 1)
+pub proof fn lemma_pos_state(len: usize, pb: u32)
+    requires pb <= 4,
+    ensures (1usize << pb) >= 1, (len & (((1usize << pb) - 1) as usize)) == (len as nat) % pow2(pb as nat),
+        (len & (((1usize << pb) - 1) as usize)) < 16,
+{
+    let a: usize = 1usize << pb;
+    lemma_shl64(pb as nat);
+    let x: usize = len & ((a - 1) as usize);
+    assert(a >= 1 && a <= 16 && x == len % a && x < a) by (bit_vector) requires pb <= 4, a == 1usize << pb, x == len & ((a - 1) as usize);
+}
+pub proof fn lemma_state_shl(st: usize)
+    requires st < 12,
+    ensures (st << 4) == st * 16,
+{
+    assert((st << 4) == st * 16) by (bit_vector) requires st < 12;
+}
+
+/// a successful step only ever appends to the output; the dictionary configuration is untouched
+pub proof fn lemma_step_extends(rc: Rc, m: LzS, w: Win, upd: bool)
+    requires w.hist <= w.out.len(),
+    ensures match sp_step(rc, m, w, upd) {
+        Some((st, r2, m2, w2)) => w.out.is_prefix_of(w2.out) && w2.hist >= w.hist && w2.maxd == w.maxd
+            && w2.out.len() - w.out.len() == w2.hist - w.hist && (!upd ==> w2 == w),
+        None => true,
+    },
+{
+    let d0 = m.rep[0] + 1;
+    if dist_ok(d0, w.hist, w.maxd) && w.hist <= w.out.len() {
+        lemma_lz_copy_prefix(w.out, 0, 1, d0 as int);
+        lemma_lz_copy_step(w.out, 1, d0 as int);
+    }
+    assert forall|len: nat, dist: nat| dist_ok(dist, w.hist, w.maxd) && w.hist <= w.out.len() implies
+        w.out.is_prefix_of(#[trigger] lz_copy(w.out, len, dist as int)) && lz_copy(w.out, len, dist as int).len() == w.out.len() + len by {
+        lemma_lz_copy_prefix(w.out, 0, len, dist as int);
+        lemma_lz_copy_step(w.out, len, dist as int);
+    }
+    assert forall|b: u8| w.out.is_prefix_of(#[trigger] w.out.push(b)) by {}
+    reveal(sp_literal);
 }
